@@ -279,6 +279,13 @@ func r11_2(c *Ctx, r *Report) {
 							uses = true
 						}
 					}
+					if v, ok := ins.(ssa.Value); ok {
+						if _, fld, ok := getterField(c, v); ok {
+							if m := pillarFieldParts(fld); m != nil && m[1] == "Day" {
+								uses = true // the field read directly
+							}
+						}
+					}
 				}
 			}
 		}
@@ -327,11 +334,16 @@ func r11_2(c *Ctx, r *Report) {
 
 // sectNonInterference follows fn for sect 1 and 2 while varying the values of the day-pillar
 // variants. decided=false when the evaluator cannot follow the method.
-func sectNonInterference(c *Ctx, fn *ssa.Function) (msg string, decided bool) {
+type dayVariants struct{ e, e2, p int }
+
+var dayVariantStrs = []string{"甲子", "乙丑", "丙寅", "丁卯", "戊辰", "己巳", "庚午"}
+
+// eightCharRun follows a method of *EightChar with the chart's sect and the three variants of the day pillar
+// (early-rat, late-rat, plain) given as small distinguishable numbers (strings: dayVariantStrs).
+func eightCharRun(c *Ctx, fn *ssa.Function, sect int64, v dayVariants) (interface{}, bool) {
 	recv := ssa.Value(fn.Params[0])
-	type vals struct{ e, e2, p int }
-	strs := []string{"甲子", "乙丑", "丙寅", "丁卯", "戊辰", "己巳"}
-	run := func(sect int64, v vals) (interface{}, bool) {
+	strs := dayVariantStrs
+	{
 		leaf := func(fr *evalFrame, x ssa.Value) (interface{}, bool) {
 			if rc, f, ok := getterField(c, x); ok {
 				if _, o := fr.origin(rc); o == recv || structName(rc.Type()) == "EightChar" {
@@ -343,6 +355,23 @@ func sectNonInterference(c *Ctx, fn *ssa.Function) (msg string, decided bool) {
 					}
 				}
 			}
+			if _, f, ok := getterField(c, x); ok {
+				// a direct read of a pillar-index field of the Lunar (or its plain getter)
+				if m := pillarFieldParts(f); m != nil {
+					k := 6
+					if m[1] == "Day" {
+						switch m[4] {
+						case "Exact":
+							k = v.e
+						case "Exact2":
+							k = v.e2
+						default:
+							k = v.p
+						}
+					}
+					return int64(k), true
+				}
+			}
 			call, ok := x.(*ssa.Call)
 			if !ok || call.Common().StaticCallee() == nil {
 				return nil, false
@@ -352,7 +381,9 @@ func sectNonInterference(c *Ctx, fn *ssa.Function) (msg string, decided bool) {
 				return nil, false
 			}
 			k := 0
+			half := ""
 			if m := dayAccessor.FindStringSubmatch(callee.Name()); m != nil {
+				half = m[1]
 				switch m[2] {
 				case "Exact":
 					k = v.e
@@ -372,17 +403,32 @@ func sectNonInterference(c *Ctx, fn *ssa.Function) (msg string, decided bool) {
 			case isIntType(res.At(0).Type()):
 				return int64(k), true
 			case isStringType(res.At(0).Type()):
+				rs := []rune(strs[k])
+				switch half {
+				case "Gan":
+					return string(rs[0]), true
+				case "Zhi":
+					return string(rs[1]), true
+				}
 				return strs[k], true
 			}
 			return nil, false
 		}
 		ev := &evaluator{inline: inlineLibrary, leaf: leaf}
 		res, outcome := ev.run(fn, nil, nil, nil, nil)
-		if outcome != "return" || len(res) != 1 {
+		if outcome != "return" || len(res) == 0 {
 			return nil, false
+		}
+		if len(res) > 1 {
+			return fmt.Sprint(res...), true // a helper that hands out several values at once
 		}
 		return res[0], true
 	}
+}
+
+func sectNonInterference(c *Ctx, fn *ssa.Function) (msg string, decided bool) {
+	type vals = dayVariants
+	run := func(sect int64, v vals) (interface{}, bool) { return eightCharRun(c, fn, sect, v) }
 	base := vals{0, 2, 4}
 	var out []string
 	// the sect a new chart starts with (what NewEightChar stores, else the zero value) behaves as sect 2
